@@ -494,7 +494,25 @@ fn pke__roundtrip_truncation_and_tampering() {
     println!("VERIF-COUNT pke__roundtrip_truncation_and_tampering {n}");
 }
 
-// @obl props=C12,C14,C16,C07 tier=quick fn=EncryptedHeader::decrypt shape="metadata absent / empty / 1 / 16 / 33 bytes x authentication data absent / empty / non-empty; mismatching authentication data; truncated and altered metadata; unauthorized key; serialization round-trip"
+/// Non-fail-fast clauses: a check that interleaves clauses of several properties reports the first failure of
+/// EACH distinct property label (lines `VERIF-FAIL <message>` parsed by tools/vcheck.py), then panics.
+#[derive(Default)]
+struct Soft { fails: Vec<String> }
+impl Soft {
+    fn label(m: &str) -> &str { m.split(':').next().unwrap_or("") }
+    fn chk(&mut self, cond: bool, msg: impl FnOnce() -> String) {
+        if !cond {
+            let m = msg();
+            if !self.fails.iter().any(|f| Self::label(f) == Self::label(&m)) {
+                println!("VERIF-FAIL {}", m.replace('\n', " "));
+                self.fails.push(m);
+            }
+        }
+    }
+    fn done(self) { if let Some(f) = self.fails.first() { panic!("{f}") } }
+}
+
+// @obl props=C12,C13,C14,C16,C07 tier=quick fn=EncryptedHeader::decrypt shape="metadata absent / empty / 1 / 16 / 33 bytes x authentication data absent / empty / 1 byte / non-empty; truncations also through the serialized form; key derivation labels pinned; mismatching authentication data; truncated and altered metadata; unauthorized key; serialization round-trip"
 #[test]
 fn header__roundtrip_authentication_and_secret() {
     let cc = Covercrypt::default();
@@ -504,32 +522,33 @@ fn header__roundtrip_authentication_and_secret() {
     let metas: Vec<Option<Vec<u8>>> = vec![None, Some(vec![]), Some(vec![7]), Some(vec![1; 16]), Some((0..33).collect())];
     let aads: Vec<Option<Vec<u8>>> = vec![None, Some(vec![]), Some(b"aad".to_vec()), Some(vec![0]), Some(vec![1])];
     let mut n = 0u64;
+    let mut soft = Soft::default();
     for m in &metas {
         for a in &aads {
             let (secret, hdr) = EncryptedHeader::generate(&cc, &mpk, &ap("SEC::LOW && DPT::FIN"), m.as_deref(), a.as_deref()).unwrap();
             let clear = hdr.decrypt(&cc, &ok, a.as_deref()).unwrap().expect("C12: an authorized key opens the header");
-            assert!(clear.secret == secret, "C12: the header yields the same secret that generation returned");
-            assert!(clear.metadata == m.clone(), "C12: the header yields the exact metadata (metadata {m:?}, aad {a:?})");
-            assert!(hdr.decrypt(&cc, &ko, a.as_deref()).unwrap().is_none(), "C12: an unauthorized key gets 'not authorized'");
+            soft.chk(clear.secret == secret, || format!("C12: the header yields the same secret that generation returned"));
+            soft.chk(clear.metadata == m.clone(), || format!("C12: the header yields the exact metadata (metadata {m:?}, aad {a:?})"));
+            soft.chk(hdr.decrypt(&cc, &ko, a.as_deref()).unwrap().is_none(), || format!("C12: an unauthorized key gets 'not authorized'"));
             // absent and empty authentication data are the same
             let other_empty: Option<&[u8]> = if a.is_none() { Some(&[]) } else { None };
             if a.as_ref().map_or(true, |x| x.is_empty()) {
                 let r = hdr.decrypt(&cc, &ok, other_empty);
-                assert!(r.is_ok() && r.unwrap().unwrap().metadata == m.clone(), "C12: absent and empty authentication data are interchangeable");
+                soft.chk(r.is_ok() && r.unwrap().unwrap().metadata == m.clone(), || format!("C12: absent and empty authentication data are interchangeable"));
             }
             if m.is_some() {
-                assert!(hdr.decrypt(&cc, &ok, Some(b"other")).is_err(), "C12: authentication data with different content must be rejected");
+                soft.chk(hdr.decrypt(&cc, &ok, Some(b"other")).is_err(), || format!("C12: authentication data with different content must be rejected"));
                 let ctx = hdr.encrypted_metadata.clone().unwrap();
                 for t in 0..ctx.len() {
                     let cut = EncryptedHeader { encapsulation: hdr.encapsulation.clone(), encrypted_metadata: Some(ctx[..t].to_vec()) };
                     let r = std::panic::catch_unwind(std::panic::AssertUnwindSafe(|| cut.decrypt(&cc, &ok, a.as_deref())));
-                    assert!(matches!(r, Ok(Err(_))), "C12/C14: encrypted metadata truncated to {t} bytes must yield an error, never a panic or data");
+                    soft.chk(matches!(r, Ok(Err(_))), || format!("C12/C14: encrypted metadata truncated to {t} bytes must yield an error, never a panic or data"));
                     if t > 0 {
                         // the same truncated header travelling in serialized form (t = 0 is the absent / empty wire value)
                         let wire = EncryptedHeader::deserialize(&cut.serialize().unwrap()).unwrap();
-                        assert!(wire == cut, "C13: a header whose encrypted metadata has {t} bytes does not survive a serialization round-trip");
+                        let same = wire == cut;
                         let r = std::panic::catch_unwind(std::panic::AssertUnwindSafe(|| wire.decrypt(&cc, &ok, a.as_deref())));
-                        assert!(matches!(r, Ok(Err(_))), "C12/C14: a deserialized header whose encrypted metadata was truncated to {t} bytes must yield an error, got {r:?}");
+                        soft.chk(same && matches!(r, Ok(Err(_))), || format!("C12/C13/C14: a header whose encrypted metadata was truncated to {t} bytes, sent in serialized form, must come back unchanged (unchanged: {same}) and yield an error, never a panic or data (got {r:?})"));
                     }
                     n += 1;
                 }
@@ -537,36 +556,37 @@ fn header__roundtrip_authentication_and_secret() {
                     let mut bad = ctx.clone();
                     bad[pos] ^= 0x10;
                     let h = EncryptedHeader { encapsulation: hdr.encapsulation.clone(), encrypted_metadata: Some(bad) };
-                    assert!(h.decrypt(&cc, &ok, a.as_deref()).is_err(), "C12/C07: altering byte {pos} of the encrypted metadata must be rejected");
+                    soft.chk(h.decrypt(&cc, &ok, a.as_deref()).is_err(), || format!("C12/C07: altering byte {pos} of the encrypted metadata must be rejected"));
                     n += 1;
                 }
                 // the metadata key differs from the secret handed to the caller: decrypting the metadata with the returned secret as key must fail
                 use cosmian_crypto_core::{Dem, FixedSizeCBytes, Instantiable, Nonce, SymmetricKey};
                 let key = SymmetricKey::<32>::try_from_bytes(*secret.clone()).unwrap_or_else(|_| panic!("key"));
                 let nonce = Nonce::try_from_slice(&ctx[..12]).unwrap();
-                assert!(Aes256Gcm::new(&key).decrypt(&nonce, &ctx[12..], a.as_deref()).is_err(), "C16: the metadata encryption key must differ from the secret handed to the caller (authentication data {a:?})");
+                soft.chk(Aes256Gcm::new(&key).decrypt(&nonce, &ctx[12..], a.as_deref()).is_err(), || format!("C16: the metadata encryption key must differ from the secret handed to the caller (authentication data {a:?})"));
                 // both derive from the encapsulated seed with the fixed, distinct labels of the pinned wire format,
                 // whatever the authentication data: metadata key = KDF(seed, 0x00), caller's secret = KDF(seed, 0x01)
                 let seed = cc.decaps(&ok, &hdr.encapsulation).unwrap().expect("C01: authorized");
                 let mk = SymmetricKey::<32>::derive(&seed, &[0u8]).unwrap_or_else(|_| panic!("kdf"));
                 let got = Aes256Gcm::new(&mk).decrypt(&nonce, &ctx[12..], a.as_deref());
-                assert!(got.as_ref().ok() == m.as_ref(), "C16/C13: the metadata must be encrypted under KDF(seed, 0x00) whatever the authentication data ({a:?}): the key must stay independent of caller input and distinct from the caller's secret KDF(seed, 0x01)");
+                soft.chk(got.as_ref().ok() == m.as_ref(), || format!("C16/C13: the metadata must be encrypted under KDF(seed, 0x00) whatever the authentication data ({a:?}): the key must stay independent of caller input and distinct from the caller's secret KDF(seed, 0x01)"));
                 let mut s1 = Secret::<32>::default();
                 cosmian_crypto_core::kdf256!(&mut *s1, &*seed, &[1u8]);
-                assert!(s1 == secret, "C16/C13: the secret handed to the caller is KDF(seed, 0x01)");
+                soft.chk(s1 == secret, || format!("C16/C13: the secret handed to the caller is KDF(seed, 0x01)"));
             }
             // wire format: absent and empty metadata are the same value
             let bytes = hdr.serialize().unwrap();
-            assert!(bytes.len() == hdr.length(), "C13: header serialization has the announced length");
+            soft.chk(bytes.len() == hdr.length(), || format!("C13: header serialization has the announced length"));
             let back = EncryptedHeader::deserialize(&bytes).unwrap();
             let same = back == hdr || (hdr.encrypted_metadata.as_ref().map_or(false, |v| v.is_empty()) && back.encrypted_metadata.is_none() && back.encapsulation == hdr.encapsulation);
-            assert!(same, "C13: header round-trip");
+            soft.chk(same, || format!("C13: header round-trip"));
             let c2 = back.decrypt(&cc, &ok, a.as_deref()).unwrap().unwrap();
-            assert!(c2.secret == secret, "C13: a deserialized header yields the same secret");
+            soft.chk(c2.secret == secret, || format!("C13: a deserialized header yields the same secret"));
             n += 1;
         }
     }
     println!("VERIF-COUNT header__roundtrip_authentication_and_secret {n}");
+    soft.done();
 }
 
 // ---------------------------------------------------------------------------
